@@ -19,7 +19,7 @@ VARIABLES l,      \* next line of the trace (1-based)
           cl,     \* line of the current case event
           nbad    \* number of judged events so far
 
-tvars == <<cur, phase, objs, den, l, cl, nbad>>
+tvars == <<cur, phase, objs, den, prints, l, cl, nbad>>
 
 e == Rec[l]
 IsEv(n) == l <= Len(Rec) /\ e.ev = n
@@ -44,7 +44,7 @@ TrLoad ==
      THEN Load(e.out) /\ Good
      ELSE /\ Bad(IF e.out = "panic" THEN "load_panic" ELSE "load_outcome", e.out)
           /\ phase' = IF e.out = "ok" THEN "loaded" ELSE "failed"
-          /\ UNCHANGED <<cur, objs, den>>
+          /\ UNCHANGED <<cur, objs, den, prints>>
 
 (* second load path (from_value): must agree with the first (C14) *)
 TrLoad2 ==
@@ -54,32 +54,38 @@ TrLoad2 ==
 
 TrOpt ==
   /\ IsEv("opt") /\ Adv
-  /\ IF phase = "loaded" /\ IsSw(e.sw) /\ e.obj = Len(objs) /\ e.out = "ok"
-     THEN Optimise(e.obj, e.sw, e.out) /\ Good
-     ELSE /\ Bad(IF e.out = "panic" THEN "opt_panic" ELSE "opt_protocol", e.out)
-          /\ objs' = Append(objs, [sw |-> e.sw, st |-> "dead"])
-          /\ UNCHANGED <<cur, phase, den>>
+  /\ LET ex == IF "expr" \in DOMAIN e THEN e.expr ELSE <<>> IN
+     IF phase = "loaded" /\ IsSw(e.sw) /\ e.obj = Len(objs) /\ e.out = "ok" /\ PrintOk(e.sw, ex)
+     THEN Optimise(e.obj, e.sw, e.out, ex) /\ Good
+     ELSE /\ Bad(IF e.out = "panic" THEN "opt_panic"
+                 ELSE IF ~PrintOk(e.sw, ex) THEN "print_differs" ELSE "opt_protocol",
+                 [out |-> e.out, sw |-> e.sw])
+          /\ objs' = Append(objs, [sw |-> e.sw, st |-> IF e.out = "ok" THEN "ok" ELSE "dead"])
+          /\ UNCHANGED <<cur, phase, den, prints>>
 
 OutBool(o) == o = "t"
 TrMatch ==
   /\ IsEv("match") /\ Adv
   /\ LET d == e.d + 1 v == OutBool(e.out) IN
      IF e.out \in {"t", "f"} /\ phase = "loaded" /\ e.obj + 1 \in DOMAIN objs /\ d \in DOMAIN cur.docs
-        /\ v \in Allowed(d)
+        /\ v \in Allowed(e.obj, d)
      THEN Match(e.obj, d, v) /\ Good
      ELSE /\ Bad(IF e.out = "p" THEN "match_panic"
-                 ELSE IF d \in DOMAIN den /\ den[d] # v THEN "den"
+                 ELSE IF DK(e.obj, d) \in DOMAIN den /\ den[DK(e.obj, d)] # v THEN "den"
                  ELSE "oracle",
                  [obj |-> e.obj, d |-> e.d, out |-> e.out,
                   lang |-> IF d \in DOMAIN cur.docs /\ HasOracle(cur) THEN SetSeq(TriAllowed(d)) ELSE <<>>,
                   sw |-> IF e.obj + 1 \in DOMAIN objs THEN objs[e.obj + 1].sw ELSE <<>>])
-          /\ UNCHANGED rvars
+          \* re-sync: an observation the oracle rejects still binds the denotation, so that later
+          \* observations of the same class are compared with it
+          /\ den' = IF e.out \in {"t", "f"} /\ d \in DOMAIN cur.docs THEN Bind(e.obj, d, v) ELSE den
+          /\ UNCHANGED <<cur, phase, objs, prints>>
 
 TrTri ==
   /\ IsEv("tri") /\ Adv
   /\ LET d == e.d + 1 IN
      IF e.out \in Tri /\ phase = "loaded" /\ e.obj + 1 \in DOMAIN objs /\ d \in DOMAIN cur.docs
-        /\ e.out \in TriAllowed(d) /\ (d \in DOMAIN den => den[d] = Verdict(e.out))
+        /\ e.out \in TriAllowed(d) /\ (IF DK(e.obj, d) \in DOMAIN den THEN den[DK(e.obj, d)] = Verdict(e.out) ELSE TRUE)
      THEN ObserveTri(e.obj, d, e.out) /\ Good
      ELSE /\ Bad(IF e.out = "P" THEN "match_panic"
                  ELSE IF e.out = "X" THEN "tri_both"
@@ -89,7 +95,32 @@ TrTri ==
                   sw |-> IF e.obj + 1 \in DOMAIN objs THEN objs[e.obj + 1].sw ELSE <<>>])
           /\ UNCHANGED rvars
 
-TrNext == TrCase \/ TrSkip \/ TrLoad \/ TrLoad2 \/ TrOpt \/ TrMatch \/ TrTri
+SeqSet(q) == {q[i] : i \in DOMAIN q}
+TrValidate ==
+  /\ IsEv("validate") /\ Adv /\ UNCHANGED rvars
+  /\ IF e.out # "panic" /\ phase = "loaded" /\ e.obj + 1 \in DOMAIN objs /\ ExamplesBound(e.obj)
+        /\ ValidateOk(e.obj, e.out, e.kind, SeqSet(e.named))
+     THEN Good
+     ELSE Bad(IF e.out = "panic" THEN "validate_panic"
+              ELSE IF ~ExamplesBound(e.obj) THEN "validate_unbound" ELSE "validate",
+              [out |-> e.out, kind |-> e.kind, named |-> e.named,
+               failing |-> IF ExamplesBound(e.obj) THEN SetSeq(Failing(e.obj)) ELSE <<>>])
+
+TrSer ==
+  /\ IsEv("ser") /\ Adv /\ UNCHANGED rvars
+  /\ IF e.out = "ok" THEN Good ELSE Bad(IF e.out = "panic" THEN "ser_panic" ELSE "ser_error", e.out)
+
+TrReload ==
+  /\ IsEv("reload") /\ Adv
+  /\ IF phase = "loaded" /\ e.from + 1 \in DOMAIN objs /\ e.obj = Len(objs) /\ e.out = "ok" /\ e.same
+     THEN Reload(e.from, e.obj, e.out, e.same) /\ Good
+     ELSE /\ Bad(IF e.out = "panic" THEN "load_panic"
+                 ELSE IF e.out # "ok" THEN "reload_fails" ELSE "reload_differs",
+                 [out |-> e.out, via |-> e.via])
+          /\ objs' = Append(objs, [sw |-> <<>>, st |-> IF e.out = "ok" THEN "ok" ELSE "dead"])
+          /\ UNCHANGED <<cur, phase, den, prints>>
+
+TrNext == TrCase \/ TrSkip \/ TrLoad \/ TrLoad2 \/ TrOpt \/ TrMatch \/ TrTri \/ TrValidate \/ TrSer \/ TrReload
 
 TrSpec == TrInit /\ [][TrNext]_tvars
 
